@@ -360,7 +360,17 @@ static DIR_CTR: AtomicU64 = AtomicU64::new(0);
 
 pub fn fresh_dir(label: &str) -> PathBuf {
     let n = DIR_CTR.fetch_add(1, Ordering::SeqCst);
-    let d = scratch_root().join(format!("{label}-{n}"));
+    // swarm knob (a function of the run's seed only): data directories whose names contain what a URI
+    // or a shell would treat specially. A path is a path: the server must use the directory it was given.
+    let odd = match crate::rng::mix(&[ID_SEED.load(Ordering::SeqCst), 0xD1A]) % 12 {
+        0 => " with space",
+        1 => "#frag",
+        2 => "?mode=ro",
+        3 => "%41%2f",
+        4 => "-ünï-目録",
+        _ => "",
+    };
+    let d = scratch_root().join(format!("{label}-{n}{odd}"));
     let _ = std::fs::remove_dir_all(&d);
     std::fs::create_dir_all(&d).expect("create scratch dir");
     d
